@@ -6,6 +6,13 @@
 //  * arithmetic: every operator against std::chrono, operands symbolic over their full range.
 // No tetl header is included here.
 #include "vf.h"
+#ifdef VF_NO_FUNCTIONAL
+// C02 runs: vf.h turns vf_assert into a two-parameter macro, which cannot take conditions containing braced initialisers with commas.
+// Same meaning (evaluate the condition, which contains the kernel calls; assert nothing), as a function call.
+#undef vf_assert
+static inline void vf_nofunc_sink(bool, char const*) {}
+#define vf_assert(...) vf_nofunc_sink(__VA_ARGS__)
+#endif
 #include <chrono>
 #include <stdint.h>
 namespace sc = std::chrono;
